@@ -1,0 +1,93 @@
+// Package document 按原始字节读取已有XML部件的辅助功能
+package document
+
+import (
+	"bytes"
+	"encoding/xml"
+	"io"
+	"strings"
+)
+
+// rawChild 部件根元素的一个直接子元素：名称、属性（按本地名）和原始字节
+type rawChild struct {
+	local string
+	attrs map[string]string
+	raw   []byte
+}
+
+// rawPart 一个已有的XML部件：根元素的起始标签和各个直接子元素，均按原始字节保存。
+// 用于在文档已有的定义（编号、脚注、尾注）之后追加新的定义，而不改动已有的内容。
+type rawPart struct {
+	rootStart []byte
+	rootName  string // 根元素带前缀的名称
+	children  []rawChild
+}
+
+// readRawPart 读取部件；根元素的本地名不是 rootLocal，或者部件无法解析时返回 nil
+func readRawPart(raw []byte, rootLocal string) *rawPart {
+	decoder := xml.NewDecoder(bytes.NewReader(raw))
+	part := &rawPart{}
+	depth := 0
+	var childBegin int64
+	var child rawChild
+	for {
+		before := decoder.InputOffset()
+		token, err := decoder.Token()
+		if err == io.EOF {
+			break
+		}
+		if err != nil {
+			return nil
+		}
+		switch t := token.(type) {
+		case xml.StartElement:
+			depth++
+			switch depth {
+			case 1:
+				if t.Name.Local != rootLocal {
+					return nil
+				}
+				part.rootStart = append([]byte(nil), raw[before:decoder.InputOffset()]...)
+				name := strings.TrimPrefix(string(part.rootStart), "<")
+				if i := strings.IndexAny(name, " \t\r\n/>"); i >= 0 {
+					name = name[:i]
+				}
+				part.rootName = name
+			case 2:
+				childBegin = before
+				child = rawChild{local: t.Name.Local, attrs: map[string]string{}}
+				for _, attr := range t.Attr {
+					child.attrs[attr.Name.Local] = attr.Value
+				}
+			}
+		case xml.EndElement:
+			if depth == 2 {
+				child.raw = append([]byte(nil), raw[childBegin:decoder.InputOffset()]...)
+				part.children = append(part.children, child)
+			}
+			depth--
+		}
+	}
+	if part.rootStart == nil {
+		return nil
+	}
+	return part
+}
+
+// openTag 根元素的起始标签（不自闭合）；没有声明前缀 w 时补上声明，
+// 因为追加的元素使用前缀 w
+func (p *rawPart) openTag(xmlnsW string) []byte {
+	tag := append([]byte(nil), p.rootStart...)
+	if bytes.HasSuffix(tag, []byte("/>")) {
+		tag = append(tag[:len(tag)-2], '>')
+	}
+	if !bytes.Contains(tag, []byte("xmlns:w=")) {
+		tag = append(tag[:len(tag)-1], []byte(` xmlns:w="`+xmlnsW+`">`)...)
+	}
+	return tag
+}
+
+// closeTag 根元素的结束标签
+func (p *rawPart) closeTag() string {
+	return "</" + p.rootName + ">"
+}
